@@ -353,4 +353,9 @@ def run(rep, tier, root=None):
     # ---------------------------------------------------------------- Z8 gamma matrices
     from . import c12_gammas
     c12_gammas.check(rep, ix, F("makegammas"))
+    # ---------------------------------------------------------------- Z9 the mode functions depend on their arguments only
+    from ..common import purity_obligations
+    purity_obligations(rep, ix, [F(n) for n in ("zernike_noll", "zernike_nm", "zernikeRadialFunc", "zernIndex", "zernikeArray",
+                                                "phaseFromZernikes", "makegammas")],
+                       "Z9.pure", "the mode returned for (j, N, rot) would depend on which modes were requested before")
     rep.floor("C12 obligations", len(rep.obligations), 30)
